@@ -151,6 +151,16 @@ static void run_pair(const char * pat, int nn, const char * hz, int exp, const i
     ncalls++;
     if (got != exp) mismatch(pat, hz, "SCPI_Match", 0, 0, exp, none, 0, got, none, 0);
 
+    {
+        /* the length given to SCPI_Match is an upper bound: the header may end earlier, at a NUL (a fixed-size field) */
+        char * hp = calloc(hlen + 4, 1);
+        memcpy(hp, hz, hlen);
+        got = SCPI_Match(pat, hp, hlen + 3) ? 1 : 0;
+        ncalls++;
+        if (got != exp) mismatch(pat, hz, "SCPI_Match+padded", 0, 0, exp, none, 0, got, none, 0);
+        free(hp);
+    }
+
     ctx.param_list.cmd = &table[0];
     ctx.param_list.cmd_raw.data = hb;
     ctx.param_list.cmd_raw.position = 0;
